@@ -150,6 +150,7 @@ theorem step_inbound_bound (s : State) (i : Input) (n : Nat) (hm : s.maxInbound 
     simp only [step, onResponseDone, inboundInFlight] at hb ⊢
     omega
   | responderWrites sid response => exact ⟨hm, hb⟩
+  | clogged => exact ⟨hm, hb⟩
 
 theorem reach_inbound_bound (n : Nat) (s : State) (h : Reach (some n) s) :
     s.maxInbound = some n ∧ inboundInFlight s ≤ n := by
